@@ -25,7 +25,9 @@ import (
 	"regexp"
 	"sort"
 	"strings"
+	"sync/atomic"
 	"testing"
+	"time"
 
 	jsonpatch "github.com/evanphx/json-patch"
 	jsonpatchv2 "gomodules.xyz/jsonpatch/v2"
@@ -1008,6 +1010,9 @@ type c14Part struct {
 	// fastPatch: the webhook's JSON patch is applied directly when it only touches metadata.annotations (what the
 	// extended-resource-spec step produces) instead of through the generic JSON patch library + a pod decode
 	fastPatch bool
+	// until: fraction of the unit's time budget after which this part stops (reported as a cap), so that on a slow
+	// machine the later parts still get their share; 0 = no own deadline
+	until float64
 }
 
 type c14Worker struct {
@@ -1134,16 +1139,16 @@ func TestVerifC14Batch(t *testing.T) {
 	// small parts first: under a time budget the later (larger) parts are the ones that get capped
 	parts := []*c14Part{
 		{name: "n1", n: 1, alpha: ext, marks: allMarks, paths: bothPaths, freshCtx: true},
-		{name: "n2-small", n: 2, alpha: small, marks: allMarks, paths: bothPaths, freshCtx: true},
+		{name: "n2-small", n: 2, alpha: small, marks: allMarks, paths: bothPaths},
 	}
 	if env.Thorough() {
 		parts = append(parts,
-			&c14Part{name: "n3-small", n: 3, alpha: small, marks: allMarks, paths: bothPaths},
-			&c14Part{name: "n2", n: 2, alpha: mid, marks: allMarks, paths: bothPaths},
+			&c14Part{name: "n3-small", n: 3, alpha: small, marks: allMarks, paths: bothPaths, until: 0.25},
+			&c14Part{name: "n2", n: 2, alpha: mid, marks: allMarks, paths: bothPaths, until: 0.4},
 			&c14Part{name: "n3-multiset", n: 3, alpha: design, marks: []string{c14MarkLabelBE}, paths: []string{c14PathProxy}, multiset: true, fastPatch: true})
 	} else {
 		parts = append(parts,
-			&c14Part{name: "n3-small", n: 3, alpha: small, marks: []string{c14MarkLabelBE, c14MarkNone}, paths: bothPaths},
+			&c14Part{name: "n3-small", n: 3, alpha: small, marks: []string{c14MarkLabelBE, c14MarkNone}, paths: bothPaths, until: 0.55},
 			&c14Part{name: "n2", n: 2, alpha: mid, marks: allMarks, paths: bothPaths})
 	}
 	// `bin/check C14 --only <regex>` restricts the run to the parts whose name matches (when any does)
@@ -1173,7 +1178,12 @@ func TestVerifC14Batch(t *testing.T) {
 			dims[i] = part.alpha.per()
 		}
 		rx := mc.Radix{Dims: dims}
+		var skipped atomic.Int64
 		done, complete := env.ParallelRangeL(res, rx.Size(), func(l *mc.Local, i int64) {
+			if part.until > 0 && env.Elapsed() > time.Duration(part.until*float64(env.Budget)) {
+				skipped.Add(1)
+				return
+			}
 			d := rx.Decode(i, make([]int, 0, 4))
 			if part.multiset {
 				for x := 1; x < len(d); x++ {
@@ -1191,9 +1201,9 @@ func TestVerifC14Batch(t *testing.T) {
 		})
 		res.Traces = res.Evaluations
 		res.Distinct = ds.Len()
-		res.Exhaustive = complete
-		if !complete {
-			res.Capped = fmt.Sprintf("time budget hit after %d of %d container lists", done, rx.Size())
+		res.Exhaustive = complete && skipped.Load() == 0
+		if !res.Exhaustive {
+			res.Capped = fmt.Sprintf("time budget hit after %d of %d container lists", done-skipped.Load(), rx.Size())
 		}
 		var rn []string
 		for _, r := range rules {
